@@ -457,7 +457,9 @@ func c10Structural(valid []byte) []c10Mutant {
 // c10Bytewise derives truncations, trailing data and whole-body replacements.
 func c10Bytewise(r *rand.Rand, valid []byte, nTrunc, nRandom int) []c10Mutant {
 	var out []c10Mutant
-	add := func(class, what string, b []byte) { out = append(out, c10Mutant{class: class, what: class + "@" + what, body: b}) }
+	add := func(class, what string, b []byte) {
+		out = append(out, c10Mutant{class: class, what: class + "@" + what, body: b})
+	}
 	add("whole:empty", "", nil)
 	if nTrunc >= len(valid) {
 		for i := 1; i < len(valid); i++ {
